@@ -30,6 +30,17 @@ type c05KV struct {
 type c05Case struct {
 	KV      []c05KV     `json:"kv"`
 	Tensors []c05Tensor `json:"tensors"`
+	// Count0: the tensors' WriterTo reports 0 bytes written, as the tensor writers of package convert do
+	// (safetensor, experts, ropeFactor: "return 0, binary.Write(...)")
+	Count0 bool `json:"count0,omitempty"`
+}
+
+// c05Count0 writes everything and reports nothing, like convert's tensor writers.
+type c05Count0 struct{ r *bytes.Reader }
+
+func (c c05Count0) WriteTo(w io.Writer) (int64, error) {
+	_, err := c.r.WriteTo(w)
+	return 0, err
 }
 
 var c05Values = map[string]any{
@@ -54,6 +65,8 @@ var c05Values = map[string]any{
 	"align:8":   uint32(8),
 	"align:16":  uint32(16),
 	"align:64":  uint32(64),
+	"align:24":  uint32(24),
+	"align:40":  uint32(40),
 	"pad:1":     "p",
 	"pad:2":     "pp",
 	"pad:3":     "ppp",
@@ -182,6 +195,9 @@ func c05Check(c c05Case, verbose bool) (clause, msg string) {
 		d := c05Data(i, c05RefSize(t.Kind, t.Shape))
 		data[t.Name] = d
 		tt.WriterTo = bytes.NewReader(d)
+		if c.Count0 {
+			tt.WriterTo = c05Count0{bytes.NewReader(d)}
+		}
 		ts[i] = tt
 	}
 	ws := &c05ws{}
@@ -334,8 +350,8 @@ func ZZVerifC05() {
 		os.Exit(0)
 	}
 	thorough := evid.Thorough()
-	r.Rule("all (KV map, tensor list) pairs from the alphabet: tensor lists = every ordered selection of distinct names x every (kind,shape) per tensor up to N tensors, x alignment {32,8,16,64} x header pad strings; KV maps = every subset of <=K keys x every value of every writer-supported type. Non-trivial = an unaligned-size tensor is followed by another tensor, or a string/array value is round-tripped. Each case: WriteGGUF -> Decode(-1) -> compare KV, tensor kinds, reversed shapes, bytes at decoded offsets, alignment, end offset == file length.")
-	r.Assume("tensor data supplied through io.WriterTo returns exactly Size() bytes (what convert and create do)",
+	r.Rule("all (KV map, tensor list) pairs from the alphabet: tensor lists = every ordered selection of distinct names x every (kind,shape) per tensor up to N tensors, x alignment {32,8,16,64,24,40} x header pad strings x tensor writers that report their byte count / report 0 like package convert's; KV maps = every subset of <=K keys x every value of every writer-supported type. Non-trivial = an unaligned-size tensor is followed by another tensor, or a string/array value is round-tripped. Each case: WriteGGUF -> Decode(-1) -> compare KV, tensor kinds, reversed shapes, bytes at decoded offsets, alignment, end offset == file length.")
+	r.Assume("tensor data supplied through io.WriterTo writes exactly Size() bytes (what convert and create do); the count it reports may be right or 0",
 		"accessor helpers (KV.Uints etc.) are not part of the round trip; decoded raw values are compared")
 
 	maxN := 3
@@ -343,13 +359,20 @@ func ZZVerifC05() {
 		maxN = 4
 	}
 	// work items: (number of tensors, first tensor name index, alignment variant) to spread over goroutines
-	aligns := []string{"", "align:8", "align:16", "align:64"}
+	// alignments that are no power of two are legal (the format asks for a multiple of 8)
+	aligns := []string{"", "align:8", "align:16", "align:64", "align:24", "align:40"}
 	pads := []string{"", "pad:1", "pad:3", "pad:5", "pad:13", "pad:31"}
 	var items []string
 	for n := 0; n <= maxN; n++ {
 		for a := range aligns {
 			for p := range pads {
-				items = append(items, fmt.Sprintf("T %d %d %d", n, a, p))
+				if a >= 4 && p%2 == 1 {
+					continue
+				}
+				items = append(items, fmt.Sprintf("T %d %d %d 0", n, a, p))
+				if n > 0 && p < 2 {
+					items = append(items, fmt.Sprintf("T %d %d %d 1", n, a, p))
+				}
 			}
 		}
 	}
@@ -366,8 +389,8 @@ func ZZVerifC05() {
 	}
 	r.Parallel(0, items, func(item string, sub *evid.Run) {
 		var kind string
-		var n, a, p int
-		fmt.Sscan(item, &kind, &n, &a, &p)
+		var n, a, p, w int
+		fmt.Sscan(item, &kind, &n, &a, &p, &w)
 		if kind == "T" {
 			var kvs []c05KV
 			if aligns[a] != "" {
@@ -380,7 +403,7 @@ func ZZVerifC05() {
 			var rec func(ts []c05Tensor, used int)
 			rec = func(ts []c05Tensor, used int) {
 				if len(ts) == n {
-					c05Run(c05Case{KV: kvs, Tensors: append([]c05Tensor{}, ts...)}, sub)
+					c05Run(c05Case{KV: kvs, Tensors: append([]c05Tensor{}, ts...), Count0: w == 1}, sub)
 					return
 				}
 				for ni, name := range c05Names {
@@ -425,6 +448,6 @@ func ZZVerifC05() {
 			rec([]c05KV{{keys[ki], vals[n]}}, ki+1)
 		}
 	})
-	r.Extra("bounds", map[string]any{"max_tensors": maxN, "names": c05Names, "shape_alphabet": len(c05Shapes), "alignments": []int{32, 8, 16, 64}, "kv_values": len(vals), "kv_keys": keys})
+	r.Extra("bounds", map[string]any{"max_tensors": maxN, "names": c05Names, "shape_alphabet": len(c05Shapes), "alignments": []int{32, 8, 16, 64, 24, 40}, "writers": []string{"honest count", "count 0 (convert)"}, "kv_values": len(vals), "kv_keys": keys})
 	r.Finish()
 }
